@@ -266,7 +266,7 @@ B("c19-sm-preferred-property", "C19", DIR, "        return self.ssc_path or self
 B("c19-match-case-sensitive", ["C19", "C20"], EXT, "    lower_path = path.lower()\n", "    lower_path = path\n", "lower-cased")
 B("c19-dup-ssc-only-raises", "C19", DIR, "                    if self.ssc_path:\n                        if self._ignore_duplicate:\n                            continue\n                        raise DuplicateSimfileError(", "                    if self.ssc_path:\n                        if not self._ignore_duplicate:\n                            continue\n                        raise DuplicateSimfileError(", "duplicate")
 B("c19-dup-last-wins", "C19", DIR, "                    if self.sm_path:\n                        if self._ignore_duplicate:\n                            continue\n", "                    if self.sm_path:\n                        if self._ignore_duplicate:\n                            pass\n", None)
-B("c19-isdir-dropped", "C19", DIR, "            if not self.filesystem.isdir(simfile_path):\n                continue\n", "", "isdir")
+B("c19-isdir-dropped", "C19", DIR, "            if not self.filesystem.isdir(simfile_path):\n                continue\n", "", "only directories are listed")
 B("c19-no-break", "C19", DIR, "                    yield simfile_path\n                    break", "                    yield simfile_path", "once")
 B("c19-filenotfound-dropped", "C19", DIR, "        if not self.simfile_path:\n            raise FileNotFoundError(\"no simfile in directory\")\n\n", "", "FileNotFoundError")
 B("c19-pack-recursive", "C19", DIR, "            if not self.filesystem.isdir(simfile_path):\n                continue\n", "            if not self.filesystem.isdir(simfile_path):\n                continue\n            for nested in SimfilePack(simfile_path, filesystem=self.filesystem)._find_simfile_paths():\n                yield nested\n", None)
